@@ -169,6 +169,7 @@ func runC18(r *core.Run) {
 					}
 				}
 				okId, okText := false, false
+				nText, nTextOK := 0, 0
 				for _, b := range fn.Blocks {
 					for _, in := range b.Instrs {
 						st, ok := in.(*ssa.Store)
@@ -183,18 +184,20 @@ func runC18(r *core.Run) {
 							okId = true
 						}
 						if core.FieldOfAddr(fa) == fNameName {
+							nText++
 							if call, ok := st.Val.(*ssa.Call); ok && core.IsPkgFunc(call, "fmt", "Sprintf") {
 								ff, _ := core.FieldLoad(call.Call.Args[0])
 								els := variadicElems(call.Call.Args[1])
 								if ff == fFormat && len(els) == 1 {
 									if u, ok := core.Strip(els[0]).(*ssa.UnOp); ok && u.Op == token.MUL && u.X == id {
-										okText = true
+										nTextOK++
 									}
 								}
 							}
 						}
 					}
 				}
+				okText = nText > 0 && nText == nTextOK // EVERY assignment of the text, on every path
 				r.Check(id != nil && okId && okText, "R18.3", key, c.Pos(), "Name{name: Sprintf(pool.format, *id), id: id} for the id just taken", "the name's text is not the pool's format applied to the very id stored in the name")
 			}
 		}
